@@ -137,3 +137,133 @@ Definition wrap_dbg (pos : position) (p : program) : program :=
   | (None, j, path) => (fst p, wrap_block j path (snd p))
   | (Some k, j, path) => (wrap_nth_fun k j path (fst p), snd p)
   end.
+
+(* ------------------------------------------------------------------------------------------------------------ *)
+(* extract-variable (src/extract_variable.rs) for a selected sub-expression e of the i-th statement s of the main block
+   (a straight-line position: the selection is reached through operator operands, the callee or an argument of a call,
+   dbg/println arguments, an `if` condition or the right-hand side of let / assignment -- never through a nested block,
+   closure body or loop, where extract_variable.rs would put the `let` somewhere else):
+       stmts_before ++ [s] ++ stmts_after   becomes   stmts_before ++ [let x = e; s[e := x]] ++ stmts_after.
+   Paths as for wrap_dbg. d is the occurrence id of the new binder, u the id of the new use. No check is made that e is
+   pure or x fresh: the refactoring does not check it either. *)
+
+Fixpoint get_expr (path : list nat) (e : expr) {struct e} : option expr :=
+  match path with
+  | [] => Some e
+  | i :: rest =>
+      match e with
+      | EBin _ l r => match i with O => get_expr rest l | _ => get_expr rest r end
+      | ECall f args => match i with O => get_expr rest f | S j => get_exprs j rest args end
+      | EIf c _ _ => match i with O => get_expr rest c | _ => None end
+      | EDbg e1 => get_expr rest e1
+      | EPrint e1 => get_expr rest e1
+      | _ => None
+      end
+  end
+with get_exprs (j : nat) (path : list nat) (es : exprs) {struct es} : option expr :=
+  match es with
+  | ENil => None
+  | ECons e r => match j with O => get_expr path e | S j' => get_exprs j' path r end
+  end.
+
+Fixpoint put_expr (path : list nat) (ex : expr) (e : expr) {struct e} : expr :=
+  match path with
+  | [] => ex
+  | i :: rest =>
+      match e with
+      | EBin op l r => match i with O => EBin op (put_expr rest ex l) r | _ => EBin op l (put_expr rest ex r) end
+      | ECall f args => match i with O => ECall (put_expr rest ex f) args | S j => ECall f (put_exprs j rest ex args) end
+      | EIf c t el => match i with O => EIf (put_expr rest ex c) t el | _ => e end
+      | EDbg e1 => EDbg (put_expr rest ex e1)
+      | EPrint e1 => EPrint (put_expr rest ex e1)
+      | _ => e
+      end
+  end
+with put_exprs (j : nat) (path : list nat) (ex : expr) (es : exprs) {struct es} : exprs :=
+  match es with
+  | ENil => ENil
+  | ECons e r => match j with O => ECons (put_expr path ex e) r | S j' => ECons e (put_exprs j' path ex r) end
+  end.
+
+Definition get_stmt (path : list nat) (s : stmt) : option expr :=
+  match s with
+  | SLet _ _ e => get_expr path e
+  | SAssign _ _ e => get_expr path e
+  | SExpr e => get_expr path e
+  | SWhile _ _ => None
+  end.
+
+Definition put_stmt (path : list nat) (ex : expr) (s : stmt) : stmt :=
+  match s with
+  | SLet d y e => SLet d y (put_expr path ex e)
+  | SAssign u y e => SAssign u y (put_expr path ex e)
+  | SExpr e => SExpr (put_expr path ex e)
+  | SWhile _ _ => s
+  end.
+
+Fixpoint extract_block (i : nat) (path : list nat) (x : name) (d u : oid) (bl : block) : block :=
+  match bl with
+  | BNil => BNil
+  | BCons s rest =>
+      match i with
+      | O => match get_stmt path s with
+             | Some e => BCons (SLet d x e) (BCons (put_stmt path (EVar u x) s) rest)
+             | None => bl
+             end
+      | S i' => BCons s (extract_block i' path x d u rest)
+      end
+  end.
+
+Definition extract_var (i : nat) (path : list nat) (x : name) (d u : oid) (p : program) : program :=
+  (fst p, extract_block i path x d u (snd p)).
+
+(* side-effect free expressions of the property: literals, variables and operators over them (no call, print, dbg,
+   closure literal, block). They can still fail (unbound variable, operator on the wrong kind of value). *)
+Fixpoint pure (e : expr) : bool :=
+  match e with
+  | EInt _ | EBool _ | EVar _ _ => true
+  | EBin _ l r => pure l && pure r
+  | _ => false
+  end.
+
+Fixpoint pure_es (es : exprs) : bool :=
+  match es with
+  | ENil => true
+  | ECons e r => pure e && pure_es r
+  end.
+
+(* the positions covered by the theorem extract_var_preserves_partial: everything that Garden evaluates BEFORE the selected
+   expression inside the statement is pure (operands to the left; the callee; the arguments to the RIGHT, because
+   arguments are evaluated right to left). *)
+Fixpoint covered_expr (path : list nat) (e : expr) {struct e} : bool :=
+  match path with
+  | [] => true
+  | i :: rest =>
+      match e with
+      | EBin _ l r => match i with O => covered_expr rest l | _ => pure l && covered_expr rest r end
+      | ECall f args => match i with O => covered_expr rest f | S j => pure f && covered_exprs j rest args end
+      | EIf c _ _ => match i with O => covered_expr rest c | _ => false end
+      | EDbg e1 => covered_expr rest e1
+      | EPrint e1 => covered_expr rest e1
+      | _ => false
+      end
+  end
+with covered_exprs (j : nat) (path : list nat) (es : exprs) {struct es} : bool :=
+  match es with
+  | ENil => false
+  | ECons e r => match j with O => pure_es r && covered_expr path e | S j' => covered_exprs j' path r end
+  end.
+
+Definition covered_stmt (path : list nat) (s : stmt) : bool :=
+  match s with
+  | SLet _ _ e => covered_expr path e
+  | SAssign _ _ e => covered_expr path e
+  | SExpr e => covered_expr path e
+  | SWhile _ _ => false
+  end.
+
+Fixpoint block_nth (i : nat) (bl : block) : option stmt :=
+  match bl with
+  | BNil => None
+  | BCons s rest => match i with O => Some s | S i' => block_nth i' rest end
+  end.
